@@ -382,3 +382,40 @@ package log
 //@   unchecked frame error handler
 //@   ensures s.Set ==> r == s
 //@   ensures !s.Set && !r.Set ==> r == s
+
+// ======================================================================== C15 logger provider lifecycle
+// Logger: the stopped flag is read before anything else; the logger cache is consulted (and a recording logger created or handed
+// out) only on the path on which that read said "not stopped" - a cached scope is no exception. Once stopped, the answer is the
+// no-op logger. (The flag is an atomic; "p.stopped.v == 0 at the lock" is the sequential reading: this call has seen it false.)
+//@ guarded_by LoggerProvider.loggersMu: loggers
+//@ func (p *LoggerProvider) Logger(name string, opts []log.LoggerOption) (l log.Logger)
+//@   prop C15
+//@   acquires p.loggersMu
+//@   overflow assumed
+//@   unchecked frame,no-panic logging, option evaluation and the no-op provider are other modules
+//@   requires p != nil
+//@   assert@call Lock#1 : old(p.stopped.v) == 0 && p.stopped.v == 0
+//@   assert@call newLogger#* : old(p.stopped.v) == 0 && holds(p.loggersMu) && $arg0 == p
+//@   assert@return#1 : old(p.stopped.v) != 0
+//@   ensures old(p.stopped.v) != 0 ==> !typeis(l, "*logger")
+
+// Shutdown: the flag is set by one atomic swap; only the caller that saw it unset shuts the processors down, each exactly once
+// and in order; every later (or concurrent losing) call does nothing
+//@ func (p *LoggerProvider) Shutdown(ctx context.Context) (err error)
+//@   prop C15
+//@   overflow assumed
+//@   unchecked frame,no-panic processors are third-party code
+//@   requires p != nil
+//@   ensures p.stopped.v != 0
+//@   ensures old(p.stopped.v) != 0 ==> err == nil
+//@   assert@call Shutdown#* : old(p.stopped.v) == 0 && $arg0 == old(p).processors[$k]
+//@   loop#1 invariant old(p).stopped.v != 0
+
+// ForceFlush: a stopped provider flushes nothing; otherwise every processor is flushed once, in order
+//@ func (p *LoggerProvider) ForceFlush(ctx context.Context) (err error)
+//@   prop C15
+//@   overflow assumed
+//@   unchecked frame,no-panic processors are third-party code
+//@   requires p != nil
+//@   ensures old(p.stopped.v) != 0 ==> err == nil
+//@   assert@call ForceFlush#* : old(p.stopped.v) == 0 && $arg0 == old(p).processors[$k]
